@@ -52,10 +52,21 @@ func validateAllCriteriaAreGain(criteria *model.Criteria) {
 }
 
 func validateAllWeightsAvailable(weights *model.Weights, criteria *model.Criteria) {
-	criteriaNames := criteria.Names()
-	requiredCriteriaCombinations := *PowerSet(*criteriaNames)
-	for _, rcc := range requiredCriteriaCombinations {
-		getWeightForCriteriaUnion(&rcc, weights)
+	criteriaNames := *criteria.Names()
+	powerSetSize := PowerSetSize(len(criteriaNames))
+	if len(criteriaNames) > 0 && powerSetSize <= 0 {
+		panic(fmt.Errorf("too many criteria (%d) for Choquet integral", len(criteriaNames)))
+	}
+	// enumerate the required subsets one by one (same order as PowerSet) instead of materialising
+	// all 2^n of them before the first lookup: a request that lacks a weight is rejected at once
+	for index := 1; index < powerSetSize; index++ {
+		var subSet []string
+		for j, elem := range criteriaNames {
+			if index&(1<<uint(j)) > 0 {
+				subSet = append(subSet, elem)
+			}
+		}
+		getWeightForCriteriaUnion(&subSet, weights)
 	}
 }
 
